@@ -175,6 +175,11 @@ func PubKeyFromCertChain(chain []*x509.Certificate) (crypto.PubKey, error) {
 	if _, err := cert.Verify(x509.VerifyOptions{Roots: pool}); err != nil {
 		return nil, errors.Wrap(err, "certificate verification failed")
 	}
+	// Verify takes a certificate that is one of its roots at face value:
+	// check that it is signed with its own key.
+	if err := cert.CheckSignature(cert.SignatureAlgorithm, cert.RawTBSCertificate, cert.Signature); err != nil {
+		return nil, errors.Wrap(err, "certificate is not self-signed")
+	}
 
 	var sk signedKey
 	if _, err := asn1.Unmarshal(keyExt.Value, &sk); err != nil {
